@@ -43,6 +43,7 @@ const (
 	RolloutName = "rollouts-demo"
 	WorkloadNm  = "demo"
 	SvcName     = "echo"
+	TRName      = "tr-demo"
 	// BigGrace: every grace / pause period is this long, so nothing expires by wall clock;
 	// the explicit tick action ages all timestamps by TickAge (> BigGrace).
 	BigGrace = 100000
@@ -402,7 +403,15 @@ func BuildSteps(steps []StepCfg) []v1beta1.CanaryStep {
 	return out
 }
 
+// trafficRefs: the Rollout's inline traffic routing (none when a TrafficRouting object is used)
 func (w *World) trafficRefs() []v1beta1.TrafficRoutingRef {
+	if w.Cfg.TRRef {
+		return nil
+	}
+	return w.trafficRefsInline()
+}
+
+func (w *World) trafficRefsInline() []v1beta1.TrafficRoutingRef {
 	if w.Cfg.Provider == "none" || w.Cfg.Provider == "" {
 		return nil
 	}
@@ -445,6 +454,27 @@ func (w *World) fixtureRollout() error {
 	if w.Cfg.Threshold != "" {
 		t := parseIntOrPercent(w.Cfg.Threshold)
 		thr = &t
+	}
+	if w.Cfg.TRRef {
+		// traffic is routed by a stand-alone TrafficRouting object the Rollout names in an annotation
+		ro.Annotations = map[string]string{v1alpha1.TrafficRoutingAnnotation: TRName}
+		w1 := int32(40)
+		refs := []v1alpha1.TrafficRoutingRef{}
+		for _, r := range w.trafficRefsInline() {
+			x := v1alpha1.TrafficRoutingRef{Service: r.Service, GracePeriodSeconds: r.GracePeriodSeconds}
+			if r.Ingress != nil {
+				x.Ingress = &v1alpha1.IngressTrafficRouting{Name: r.Ingress.Name, ClassType: r.Ingress.ClassType}
+			}
+			if r.Gateway != nil {
+				x.Gateway = &v1alpha1.GatewayTrafficRouting{HTTPRouteName: r.Gateway.HTTPRouteName}
+			}
+			refs = append(refs, x)
+		}
+		tr := &v1alpha1.TrafficRouting{ObjectMeta: metav1.ObjectMeta{Namespace: w.NS, Name: TRName},
+			Spec: v1alpha1.TrafficRoutingSpec{ObjectRef: refs, Strategy: v1alpha1.TrafficRoutingStrategy{Weight: &w1}}}
+		if err := w.S.Put(tr); err != nil {
+			return err
+		}
 	}
 	if w.Cfg.Style == "bluegreen" {
 		ro.Spec.Strategy.BlueGreen = &v1beta1.BlueGreenStrategy{Steps: BuildSteps(w.Cfg.Steps), TrafficRoutings: w.trafficRefs(), FailureThreshold: thr,
@@ -563,7 +593,7 @@ func (w *World) doOne(action string, captureMids bool) (res Result) {
 		w.Q.BrPending = false
 		rr, err = w.Br.Reconcile(context.TODO(), w.roReq())
 	case base == "tr":
-		rr, err = w.Tr.Reconcile(context.TODO(), ctrl.Request{NamespacedName: types.NamespacedName{Namespace: w.NS, Name: "tr-demo"}})
+		rr, err = w.Tr.Reconcile(context.TODO(), ctrl.Request{NamespacedName: types.NamespacedName{Namespace: w.NS, Name: TRName}})
 	case base == "tick":
 		w.S.AgeTimestamps(TickAge)
 		grace.AgeForVerif(TickAge)
@@ -785,6 +815,12 @@ func (w *World) userDo(a string) error {
 		}
 		ro.Spec.Disabled = a == "user.disable"
 		return w.S.Put(ro)
+	case a == "user.trdelete":
+		tr := &v1alpha1.TrafficRouting{}
+		if !w.S.Load(w.NS, TRName, tr) {
+			return nil
+		}
+		return w.S.Delete(context.TODO(), tr)
 	case a == "user.delete" || a == "user.deleteidle":
 		ro := w.getRollout()
 		if ro == nil {
@@ -859,6 +895,12 @@ func (w *World) enabledOne() []string {
 	if w.S.Load(w.NS, RolloutName, br) && (!w.Cfg.Queue || w.Q.BrPending) {
 		out = append(out, "br")
 	}
+	if w.Cfg.TRRef {
+		tr := &v1alpha1.TrafficRouting{}
+		if w.S.Load(w.NS, TRName, tr) {
+			out = append(out, "tr")
+		}
+	}
 	out = append(out, w.WL.EnvActions(w)...)
 	if w.gcPending() {
 		out = append(out, "env.gc")
@@ -923,6 +965,9 @@ func (w *World) userEnabled(a string, ro *v1beta1.Rollout) bool {
 		return !deleting && w.Ghost.Rev >= 2
 	case a == "user.editplan":
 		return inProgress && len(w.Cfg.Steps2) > 0
+	case a == "user.trdelete":
+		tr := &v1alpha1.TrafficRouting{}
+		return w.S.Load(w.NS, TRName, tr) && tr.DeletionTimestamp.IsZero()
 	case a == "user.editidle": // the plan is edited while nothing is being released (validation allows any change then)
 		return ro.Status.Phase == v1beta1.RolloutPhaseHealthy && !deleting && len(w.Cfg.Steps2) > 0
 	case a == "user.deleteidle":
